@@ -3,7 +3,8 @@
 seed directory (tools/kill_matrix.sh on a scratch copy of /repo HEAD)."""
 import json, os, shutil, subprocess, sys, glob
 out = '/verif/seeded'
-NOTES = {'C08r11-a': 'timing dependent: in my confirmation the demo passed in the two scripted runs with the patch applied and failed in 1 of 3 further runs (a reader has to hit the window in which the blob is neither active nor closed); it never fails on the clean tree. Statically the change is decided by C04.T4 / C14.X3 (the blob leaves the exclusive section between take and push).',
+NOTES = {'C04-a': 'confirmed at 1ed2f78. Since the repair of the dump path (285cda4: a failed index dump puts the header map back) the failed dump this change provokes no longer empties the in-memory index, so the demo passes with the change on the current tree (re-run at db45bf7 with patch_head.diff). The edit is still wrong - every later dump of such a blob fails and background maintenance never completes, which is what seed C13r7-a (the same edit, confirmed at db45bf7 against C13) demonstrates - and is reported by C04.T5 / C10.B8.',
+         'C08r11-a': 'timing dependent: in my confirmation the demo passed in the two scripted runs with the patch applied and failed in 1 of 3 further runs (a reader has to hit the window in which the blob is neither active nor closed); it never fails on the clean tree. Statically the change is decided by C04.T4 / C14.X3 (the blob leaves the exclusive section between take and push).',
          'C04r8-a': 'NOT a valid seed: in my confirmation the existing suite fails with this change applied (tests::test_read_ordered_by_timestamp_in_different_blobs and test_multithread_read_write_exist_delete, 4 of 4 runs, fresh TMPDIR) although the sub-agent reported 76 passes. Kept for the record; the rule written from it (C04.T15: an index file is built into an emptied or absent file) is a necessary condition in its own right and stays.',
          'C08r5-a': 'confirmed at 3f851bc (the tree the sub-agent worked on). The change relied on re-opened blobs being O_APPEND descriptors (finding F14, repaired by 067f913): with positional writes the order of the two pwrites of a large record is immaterial, the demo passes with the patch on the repaired tree, and the rule that used to flag it (C05.V6) was retired.',
          'C05r5-b': 'confirmed at 3f851bc. On the repaired tree (067f913, no O_APPEND) concurrent positional writes to a re-opened blob land at their reserved offsets, so the byte-integrity demo passes; the same lock downgrade still breaks the append-order clause (seed C01r5-b, confirmed at HEAD) and is reported by C08.D2.',
@@ -12,7 +13,7 @@ NOTES = {'C08r11-a': 'timing dependent: in my confirmation the demo passed in th
 PORTED = {'C04-b': 'ported_C04b_narrow_lock.diff', 'C13-a': 'ported_C13a_request_flag.diff', 'C14-b': 'ported_C14b_reserved_id_guard.diff'}
 # import round 2
 for pid in ['C01','C02','C03','C04','C05','C06','C07','C08','C09','C10','C11','C12','C13','C14','C15','C16','C17']:
-  for rnd in (2, 3, 4, 5, 6, 7, 8, 9, 10, 11, 12):
+  for rnd in (2, 3, 4, 5, 6, 7, 8, 9, 10, 11, 12, 13, 14):
     for ab in 'ab':
         src = '/tmp/seed/%sr%d/seed/%s' % (pid, rnd, ab)
         sid = '%sr%d-%s' % (pid, rnd, ab)
@@ -34,6 +35,8 @@ for pid in ['C01','C02','C03','C04','C05','C06','C07','C08','C09','C10','C11','C
                 'author': 'fresh sub-agent (round %d) given only the property text, the summaries of the earlier rounds\' changes to avoid, and a scratch worktree of /repo HEAD' % rnd,
                 'confirmed_by_me': {'how': 'tools/confirm_seed.sh: scratch git worktree of /repo HEAD, demo on the clean tree (must pass), patch applied, cargo test --lib --test tests (76 must pass), demo again (must fail); worktree removed afterwards', 'at_repo_head': conf}}
         json.dump(meta, open(d + '/meta.json', 'w'), indent=1)
+if os.environ.get('IMPORT_ONLY'):
+    sys.exit(0)
 sys.path.insert(0, '/verif/tools')
 import firedlib
 def patch_of(d):
